@@ -160,6 +160,10 @@ def run_cases(ctx, n_libs: int, per_lib: int, focus: str):
                     ctx.violate({**case, "metadata_chain": repr(mds), "expected": repr(body.md)},
                                 "C09: MetaData attached by callbacks is not on the source chain upstream of the operator")
             # ---- correspondence
+            if body.refusal is not None and "[oracle only]" in body.refusal:
+                # a refusal the follower model does not contain (a property called like a method): decided by the oracle above
+                ctx.skip("outside the follower model: a property called like a method (oracle only)")
+                continue
             try:
                 lam_enc = enc(parse_expr(src))
             except Unsupported:
